@@ -124,6 +124,15 @@ func cmdBtCrash(args []string) {
 				Model: append(append([]string{}, pad...), extraModel...), Index: len(q.Ops), ShrunkFrom: len(p.Ops), Kind: "btcrash", OpsJSON: qj, Note: what})
 		}
 		bad := false
+		// requests the process was killed in: the image compared after them is the one taken at that point
+		killedAt := map[int]string{}
+		for _, ka := range p.KilledAt {
+			var i int
+			var pt string
+			if n, _ := fmt.Sscanf(ka, "request %d at %s", &i, &pt); n == 2 {
+				killedAt[i] = pt
+			}
+		}
 		for k := range p.Ops {
 			distinct[p.Ops[k].Line()] = true
 			if impl[k*stride] != model[k*stride] && !bad {
@@ -133,6 +142,11 @@ func cmdBtCrash(args []string) {
 			for j := 1; j <= nd && !bad; j++ {
 				if impl[k*stride+j] != model[k*stride+j] {
 					bad = true
+					if pt, ok := killedAt[k]; ok {
+						report(fmt.Sprintf("the process was killed at crash point %q inside request %d; a service started on the image it left serves a state that is neither the one before nor the one after that request", pt, k),
+							k, []string{"image at " + pt + "; " + lines[k*stride+j]}, []string{impl[k*stride+j]}, []string{"after: " + model[k*stride+j]})
+						continue
+					}
 					report(fmt.Sprintf("a service started on the image taken right after request %d (%s) does not serve the acknowledged state", k, strings.Fields(lines[k*stride])[1]),
 						k, []string{"image after the last request; " + lines[k*stride+j]}, []string{impl[k*stride+j]}, []string{model[k*stride+j]})
 				}
